@@ -33,7 +33,12 @@ CLAIM = dict(
          'checks that it feeds the oracle the same matrix the implementation did), comparing error class, exponent p, '
          'all shapes exactly and every core entry to 2^-38 relative (oracle inputs to 2^-40; the rare stabilised cases '
          'whose max-modulus lies within 1e-9 of a power of two are counted and not compared); every recorded QR / RQ / '
-         'log2 call is validated against its contract; out-of-range pivots are compared exactly (error class).',
+         'log2 call is validated against its contract; out-of-range pivots are compared exactly (error class). Both the '
+         'correspondence and the search hand the same values over in varying ARGUMENT FORMS: pivot / mode number as '
+         'Python int, np.int64, np.int32, np.intp, 0-d array or None (valid, out of range, negative); cores C-ordered, '
+         'F-ordered, non-contiguous views, int64 (and, search only, float32) — also mixed per core; the same array object '
+         'several times in the list ([A] + [G]*(d-2) + [B]); list or tuple; inplace True / False; the frame clause compares '
+         'every other core bitwise, aliased ones included.',
     note='Trusted: Coq kernel, vm_compute for case evaluation, the hand-written model (validated by the correspondence), '
          'the oracle contracts qr_ok / rq_ok / ilog2k_ok (validated on every recorded call; np.log2 meets the log2 '
          'contract with lo = 1 - 2^-53), IEEE rounding is not modelled (theorems speak about exact arithmetic). The '
@@ -141,7 +146,7 @@ def tt_of_desc(D):
 # ----------------------------------------------------------------------------
 
 FAMILIES = ['generic', 'generic', 'over', 'deficient', 'n1', 'd2', 'zero', 'int', 'scaled', 'scaled_mixed', 'd1', 'r1',
-            'extreme']
+            'extreme', 'alias']
 
 
 def rand_core(rng, r1, n, r2, kind='float'):
@@ -170,6 +175,12 @@ def gen_tt(rng, fam, big=False):
         r = [1] * (d + 1)
     kind = 'int' if fam == 'int' else 'float'
     Y = [rand_core(rng, r[j], n[j], r[j + 1], kind) for j in range(d)]
+    if fam == 'alias':        # the idiom [A] + [G] * (d - 2) + [B]: the same core (object, see apply_form) several times
+        d = rng.randint(4, dmax + 1)
+        rr, nn = rng.randint(1, 3), rng.randint(1, nmax)
+        G = rand_core(rng, rr, nn, rr, rng.choice(['int', 'float']))
+        Y = [rand_core(rng, 1, rng.randint(1, nmax), rr)] + [G.copy() for _ in range(d - 2)] + \
+            [rand_core(rng, rr, rng.randint(1, nmax), 1)]
     scales = [0] * d
     if fam == 'deficient':
         for j in range(d):
@@ -209,6 +220,82 @@ def plain_ok(scales):
             if abs(a) > 900:
                 return False
     return abs(sum(scales)) <= 900
+
+
+# ----------------------------------------------------------------------------
+# argument forms: how the same VALUES are handed to the implementation
+# ----------------------------------------------------------------------------
+
+KFORMS = ['int', 'int64', 'int32', 'intp', 'arr0']
+LAYOUTS = ['C', 'F', 'view', 'int', 'f32']
+
+
+def wrap_k(k, kform):
+    """pivot / mode number as Python int, NumPy integer scalar or 0-d integer array (None stays None)"""
+    if k is None:
+        return None
+    return dict(int=int, int64=np.int64, int32=np.int32, intp=np.intp, arr0=np.array)[kform or 'int'](k)
+
+
+def norm_form(form):
+    f = dict(layouts='C', alias=False, container='list', kform='int')
+    if isinstance(form, str):
+        f['layouts'] = form
+    elif isinstance(form, dict):
+        f.update(form)
+    return f
+
+
+def one_core(G, lay):
+    G = np.array(G, dtype=float)
+    if lay == 'F':
+        return np.asfortranarray(G)
+    if lay == 'view':         # non-contiguous view into a larger buffer
+        big = np.full((G.shape[0], 2 * G.shape[1], G.shape[2]), 7.5)
+        big[:, ::2, :] = G
+        return big[:, ::2, :]
+    if lay == 'int' and np.all(G == np.round(G)) and np.all(np.abs(G) < 2 ** 40):
+        return G.astype(np.int64)
+    if lay == 'f32':
+        return G.astype(np.float32)
+    return G
+
+
+def apply_form(Yv, form):
+    """the argument handed to the implementation: per-core layout / dtype, optionally ONE array object for cores with
+    identical values (aliasing inside the list), list or tuple"""
+    f = norm_form(form)
+    lays = f['layouts'] if isinstance(f['layouts'], list) else [f['layouts']]
+    out, pool = [], []
+    for j, G in enumerate(Yv):
+        lay = lays[j % len(lays)]
+        obj = None
+        if f['alias']:
+            for l0, V0, o in pool:
+                if l0 == lay and V0.shape == G.shape and np.array_equal(V0, G):
+                    obj = o
+                    break
+        if obj is None:
+            obj = one_core(G, lay)
+            pool.append((lay, np.array(G, dtype=float), obj))
+        out.append(obj)
+    return tuple(out) if f['container'] == 'tuple' else out
+
+
+def has_f32(form):
+    lays = norm_form(form)['layouts']
+    return 'f32' in (lays if isinstance(lays, list) else [lays])
+
+
+def rand_form(rng, fam, scales, allow_f32=True, allow_tuple=True):
+    lays = ['C', 'F', 'view'] + (['int'] if fam in ('int', 'alias') else []) + \
+        (['f32'] if allow_f32 and not any(scales) else [])
+    if fam == 'alias' or rng.random() < 0.5:
+        L = rng.choice([x for x in lays if x != 'f32'] if fam == 'alias' else lays)
+    else:
+        L = [rng.choice(lays) for _ in range(len(scales))]
+    return dict(layouts=L, alias=(fam == 'alias'), kform=rng.choice(KFORMS),
+                container='tuple' if allow_tuple and rng.random() < 0.25 else 'list')
 
 
 # ----------------------------------------------------------------------------
@@ -258,17 +345,17 @@ class Rec:
                 return None
 
         def oleft(Z, i, inplace=False):
-            gin, nq = amax(Z, i + 1) if isinstance(i, int) else None, len(self.qr)
+            gin, nq = amax(Z, int(i) + 1) if isinstance(i, (int, np.integer)) else None, len(self.qr)
             out = ol(Z, i, inplace=inplace)
             if len(self.qr) > nq and gin is not None:
-                self.steps.append((amax([self.qr[-1][2]], 0) or 0.0, gin, amax(out, i + 1) or 0.0))
+                self.steps.append((amax([self.qr[-1][2]], 0) or 0.0, gin, amax(out, int(i) + 1) or 0.0))
             return out
 
         def oright(Z, i, inplace=False):
-            gin, nq = amax(Z, i - 1) if isinstance(i, int) else None, len(self.rq)
+            gin, nq = amax(Z, int(i) - 1) if isinstance(i, (int, np.integer)) else None, len(self.rq)
             out = orr(Z, i, inplace=inplace)
             if len(self.rq) > nq and gin is not None:
-                self.steps.append((amax([self.rq[-1][1]], 0) or 0.0, gin, amax(out, i - 1) or 0.0))
+                self.steps.append((amax([self.rq[-1][1]], 0) or 0.0, gin, amax(out, int(i) - 1) or 0.0))
             return out
 
         T.orthogonalize_left, T.orthogonalize_right = oleft, oright
@@ -409,7 +496,7 @@ def correspondence(R, ctx):
 def corr_orthogonalize(R, tn, rng, th):
     n_tt = 160 if th else 44
     terms, meta = [], []
-    dist = dict(families={}, d={}, use_stab={True: 0, False: 0}, pivots=0, default_pivot=0, qr_calls=0, rq_calls=0,
+    dist = dict(families={}, forms={}, d={}, use_stab={True: 0, False: 0}, pivots=0, default_pivot=0, qr_calls=0, rq_calls=0,
                 log2_calls=0, near_pow2_skipped=0, cancellation_skipped=0, plain_overflow_skipped=0, rank_cut_cases=0)
     for t in range(n_tt):
         fam = FAMILIES[t % len(FAMILIES)]
@@ -420,14 +507,15 @@ def corr_orthogonalize(R, tn, rng, th):
                 if not stab and not plain_ok(scales):
                     dist['plain_overflow_skipped'] += 1
                     continue
-                Yc = [G.copy() for G in Y]
+                form = rand_form(rng, fam, scales, allow_f32=False)
+                Yc, kw = apply_form(Y, form), wrap_k(k, form['kform'])
                 with Rec(tn) as rec:
                     if stab:
-                        imp = impl_result(lambda: tn.orthogonalize(Yc, k, use_stab=True))
+                        imp = impl_result(lambda: tn.orthogonalize(Yc, kw, use_stab=True))
                     elif rng.random() < 0.5:
-                        imp = impl_result(lambda: tn.orthogonalize(Yc, k))
+                        imp = impl_result(lambda: tn.orthogonalize(Yc, kw))
                     else:
-                        imp = impl_result(lambda: tn.orthogonalize(Yc, k, False))
+                        imp = impl_result(lambda: tn.orthogonalize(Yc, kw, False))
                 near, l2bad = rec.log2_status()
                 if near:
                     dist['near_pow2_skipped'] += 1
@@ -445,7 +533,9 @@ def corr_orthogonalize(R, tn, rng, th):
                     cv.append(f'floor(np.log2(v)) violates 2^p <= v < 2^(p+1): {l2bad[:2]}')
                 if len(rec.qr) != kk or len(rec.rq) != d - 1 - kk:
                     cv.append(f'number of LAPACK calls: qr {len(rec.qr)} (expected {kk}), rq {len(rec.rq)} (expected {d - 1 - kk})')
-                meta.append(dict(imp=imp, contract=cv, input=['orthogonalize', fam, tt_desc(Y), k, stab]))
+                meta.append(dict(imp=imp, contract=cv, input=['orthogonalize', fam, tt_desc(Y), k, stab, form]))
+                fk = form['kform'] + '/' + str(form['layouts'] if isinstance(form['layouts'], str) else 'mixed') + '/' + form['container']
+                dist['forms'][fk] = dist['forms'].get(fk, 0) + 1
                 dist['families'][fam] = dist['families'].get(fam, 0) + 1
                 dist['d'][d] = dist['d'].get(d, 0) + 1
                 dist['use_stab'][stab] += 1
@@ -472,7 +562,7 @@ def corr_orthogonalize(R, tn, rng, th):
                                   'of every recorded qr / rq / log2 call',
                        distribution=dist, first_mismatches=bad[:3]))
     if meta:
-        R.samples.append(dict(stream='orthogonalize_replay', input=meta[0]['input'][:2] + meta[0]['input'][3:],
+        R.samples.append(dict(stream='orthogonalize_replay', input=meta[0]['input'][:2] + meta[0]['input'][3:5],
                               model=str(vals[0])[:300], impl=str(meta[0]['imp'])[:300]))
     return bad
 
@@ -480,7 +570,7 @@ def corr_orthogonalize(R, tn, rng, th):
 def corr_steps(R, tn, rng, th):
     n_tt = 80 if th else 24
     terms, meta = [], []
-    dist = dict(families={}, left=0, right=0, inplace=0, rank_cut_cases=0, cancellation_skipped=0)
+    dist = dict(families={}, forms={}, left=0, right=0, inplace=0, rank_cut_cases=0, cancellation_skipped=0)
     for t in range(n_tt):
         fam = FAMILIES[(t * 5 + 1) % len(FAMILIES)]
         if fam == 'd1':
@@ -495,10 +585,11 @@ def corr_steps(R, tn, rng, th):
                 idxs = rng.sample(idxs, 3)
             for i in idxs:
                 inplace = rng.random() < 0.5
-                Yc = [G.copy() for G in Y]
+                form = rand_form(rng, fam, scales, allow_f32=False, allow_tuple=not inplace)
+                Yc, iw = apply_form(Y, form), wrap_k(i, form['kform'])
                 f = tn.orthogonalize_left if side == 'left' else tn.orthogonalize_right
                 with Rec(tn) as rec:
-                    imp = impl_result(lambda: f(Yc, i, inplace=inplace) if inplace else f(Yc, i))
+                    imp = impl_result(lambda: f(Yc, iw, inplace=inplace) if inplace else f(Yc, iw))
                 cv = rec.contract_violations()
                 if imp[0] == 'ok':
                     j2 = i + 1 if side == 'left' else i - 1
@@ -520,7 +611,9 @@ def corr_steps(R, tn, rng, th):
                 dist['families'][fam] = dist['families'].get(fam, 0) + 1
                 if imp[0] == 'ok' and any(a.shape != b.shape for a, b in zip(imp[1], Y)):
                     dist['rank_cut_cases'] += 1
-                meta.append(dict(imp=imp, contract=cv, input=['orthogonalize_' + side, fam, tt_desc(Y), i, inplace]))
+                meta.append(dict(imp=imp, contract=cv, input=['orthogonalize_' + side, fam, tt_desc(Y), i, inplace, form]))
+                fk = form['kform'] + '/' + str(form['layouts'] if isinstance(form['layouts'], str) else 'mixed') + ('/alias' if form['alias'] else '')
+                dist['forms'][fk] = dist['forms'].get(fk, 0) + 1
     vals = C.run_cases('C04_steps', HEADER, terms, chunk=12)
     bad = []
     for m, v in zip(meta, vals):
@@ -540,26 +633,36 @@ def corr_steps(R, tn, rng, th):
 def corr_malformed(R, tn, rng, th):
     """out-of-range pivots / mode numbers: the error class must agree exactly (no oracle is reached in the model)"""
     items = []
-    dist = dict(orthogonalize=0, left=0, right=0)
+    dist = dict(orthogonalize=0, left=0, right=0, kforms={})
     for t in range(30 if th else 10):
         Y, _ = gen_tt(rng, rng.choice(['generic', 'd2', 'd1', 'n1', 'over']))
         d = len(Y)
+        nf = 0
         for k in [-1, -2, -d, -d - 1, d, d + 1, d + 7]:
             for stab in (False, True):
-                r = C.call_impl(lambda: tn.orthogonalize([G.copy() for G in Y], k, use_stab=stab))
+                kf = KFORMS[nf % len(KFORMS)]
+                nf += 1
+                r = C.call_impl(lambda: tn.orthogonalize([G.copy() for G in Y], wrap_k(k, kf), use_stab=stab))
                 items.append(dict(coq=f'ORTH [] [] {tt_lit(Y)} (Some {C.zlit(k)}) {"true" if stab else "false"}',
-                                  impl=[[r[0]]] if r[0] else [['accepted']], input=['orthogonalize-bad', tt_desc(Y), k, stab]))
+                                  impl=[[r[0]]] if r[0] else [['accepted']], input=['orthogonalize-bad', tt_desc(Y), k, stab, kf]))
                 dist['orthogonalize'] += 1
+                dist['kforms'][kf] = dist['kforms'].get(kf, 0) + 1
         for i in [-1, -2, -d, d - 1, d, d + 3]:
-            r = C.call_impl(lambda: tn.orthogonalize_left([G.copy() for G in Y], i))
+            kf = KFORMS[nf % len(KFORMS)]
+            nf += 1
+            r = C.call_impl(lambda: tn.orthogonalize_left([G.copy() for G in Y], wrap_k(i, kf)))
             items.append(dict(coq=f'OL [] {tt_lit(Y)} {C.zlit(i)}', impl=[[r[0]]] if r[0] else [['accepted']],
-                              input=['left-bad', tt_desc(Y), i]))
+                              input=['left-bad', tt_desc(Y), i, kf]))
             dist['left'] += 1
+            dist['kforms'][kf] = dist['kforms'].get(kf, 0) + 1
         for i in [0, -1, -d, d, d + 1, d + 3]:
-            r = C.call_impl(lambda: tn.orthogonalize_right([G.copy() for G in Y], i))
+            kf = KFORMS[nf % len(KFORMS)]
+            nf += 1
+            r = C.call_impl(lambda: tn.orthogonalize_right([G.copy() for G in Y], wrap_k(i, kf)))
             items.append(dict(coq=f'ORR [] {tt_lit(Y)} {C.zlit(i)}', impl=[[r[0]]] if r[0] else [['accepted']],
-                              input=['right-bad', tt_desc(Y), i]))
+                              input=['right-bad', tt_desc(Y), i, kf]))
             dist['right'] += 1
+            dist['kforms'][kf] = dist['kforms'].get(kf, 0) + 1
     return C.exact_corr(R, 'malformed_pivots', HEADER, items, chunk=40, distribution=dist)
 
 
@@ -570,6 +673,7 @@ def corr_malformed(R, tn, rng, th):
 def dense(Y):
     v = np.ones((1, 1))
     for G in Y:
+        G = np.asarray(G, dtype=float)
         r1, n, r2 = G.shape
         v = (v @ G.reshape(r1, n * r2)).reshape(-1, r2)
     return v.reshape([G.shape[1] for G in Y])
@@ -599,24 +703,29 @@ def well_formed(Z, Y):
     return None
 
 
-def build(Y0, scales, layout='C'):
-    """the argument handed to the implementation: C-ordered float64 cores, Fortran-ordered ones, or int64 cores"""
-    Y = [G * 2.0 ** s for G, s in zip(Y0, scales)]
-    if layout == 'F':
-        Y = [np.asfortranarray(G) for G in Y]
-    if layout == 'int' and all(np.all(G == np.round(G)) and np.all(np.abs(G) < 2 ** 40) for G in Y):
-        Y = [G.astype(np.int64) for G in Y]
-    return Y
+def build(Y0, scales, form=None):
+    """the argument handed to the implementation (values Y0 * 2^scales corewise, in the given argument form)"""
+    return apply_form([G * 2.0 ** s for G, s in zip(Y0, scales)], form)
 
 
-def check_orth(tn, Y0, scales, k, stab, layout='C'):
+def same_bytes(a, b):
+    return a.dtype == b.dtype and a.shape == b.shape and np.array_equal(a, b)
+
+
+def check_orth(tn, Y0, scales, k, stab, form=None):
     """property oracle for orthogonalize(Y, k, use_stab); Y = Y0 * 2^scales corewise.  Returns None or (what, got, exp)."""
-    Y = build(Y0, scales, layout)
+    form = norm_form(form)
+    Y = build(Y0, scales, form)
     snap = [G.copy() for G in Y]
+    # the tensor actually handed over (float32 cores round the values), without the scaling
+    Y0 = [np.asarray(G, dtype=float) * 2.0 ** -s for G, s in zip(snap, scales)]
+    lo = has_f32(form)
+    tg, td = (2e-4, 2e-4) if lo else (1e-10, 1e-9)
     d = len(Y)
     kk = d - 1 if k is None else k
-    r = tn.orthogonalize(Y, k, use_stab=True) if stab else tn.orthogonalize(Y, k)
-    if any(not np.array_equal(a, b) for a, b in zip(Y, snap)):
+    kw = wrap_k(k, form['kform'])
+    r = tn.orthogonalize(Y, kw, use_stab=True) if stab else tn.orthogonalize(Y, kw)
+    if len(Y) != len(snap) or any(not same_bytes(a, b) for a, b in zip(Y, snap)):
         return ('orthogonalize modified its argument', None, None)
     if stab:
         if not (isinstance(r, tuple) and len(r) == 2):
@@ -638,16 +747,16 @@ def check_orth(tn, Y0, scales, k, stab, layout='C'):
     if any(a > b for a, b in zip(gr, old)):
         return ('a rank increased', gr, old)
     for m in range(d):
-        G = Z[m]
+        G = np.asarray(Z[m], dtype=float)
         if m < kk:
             U = G.reshape(-1, G.shape[2])
             e = float(np.max(np.abs(U.T @ U - np.eye(G.shape[2]))))
-            if e > 1e-10:
+            if e > tg:
                 return (f'core {m} (left of the pivot {kk}) does not have orthonormal columns', e, 0.0)
         if m > kk:
             V = G.reshape(G.shape[0], -1)
             e = float(np.max(np.abs(V @ V.T - np.eye(G.shape[0]))))
-            if e > 1e-10:
+            if e > tg:
                 return (f'core {m} (right of the pivot {kk}) does not have orthonormal rows', e, 0.0)
     # same tensor: Y = 2^sum(scales) dense(Y0); result 2^p dense(Z)
     D0 = dense(Y0)
@@ -663,50 +772,55 @@ def check_orth(tn, Y0, scales, k, stab, layout='C'):
             else:
                 DZs = DZ * 2.0 ** shift
         else:
-            Zn = [G.copy() for G in Z]
+            Zn = [np.asarray(G, dtype=float) for G in Z]
             Zn[kk] = Zn[kk] * 2.0 ** shift       # only the pivot core carries the weight
             DZs = dense(Zn)
         e = float(np.max(np.abs(DZs - D0))) if D0.size else 0.0
-        if e > 1e-9 * sc + 1e-290:
-            return ('the result does not denote the input tensor (2^p Z != Y)', e, 1e-9 * sc)
+        if e > td * sc + 1e-290:
+            return ('the result does not denote the input tensor (2^p Z != Y)', e, td * sc)
         # the pivot core carries the norm
-        nz = float(np.linalg.norm((Z[kk] * 2.0 ** (shift if abs(shift) <= 1000 else 0)).ravel()))
+        nz = float(np.linalg.norm((np.asarray(Z[kk], dtype=float) * 2.0 ** (shift if abs(shift) <= 1000 else 0)).ravel()))
         ny = float(np.linalg.norm(D0.ravel()))
-        if abs(nz - ny) > 1e-9 * ny + 1e-290:
+        if abs(nz - ny) > td * ny + 1e-290:
             return ('the pivot core does not carry the Frobenius norm', nz, ny)
     if stab:
         for m in range(d):
             mx = float(np.max(np.abs(Z[m])))
-            if m != kk and mx > 1 + 1e-10:
+            if m != kk and mx > 1 + tg:
                 return (f'entry of non-pivot core {m} larger than 1 with use_stab', mx, 1.0)
         if d >= 2:
             mx = float(np.max(np.abs(Z[kk])))
-            if not (mx == 0.0 or (1 - 2.0 ** -52 <= mx < 2)):
+            if not (mx == 0.0 or (1 - (2.0 ** -20 if lo else 2.0 ** -52) <= mx < 2)):
                 return ('max-modulus of the pivot core is not in [1, 2) with use_stab', mx, '[1,2)')
     return None
 
 
-def check_step(tn, Y, side, i, inplace):
+def check_step(tn, Y, side, i, inplace, form=None):
+    """property oracle for the single steps; Y is the built argument (see build)"""
+    form = norm_form(form)
+    lo = has_f32(form)
+    tg, td = (2e-4, 2e-4) if lo else (1e-10, 1e-9)
     snap = [G.copy() for G in Y]
     f = tn.orthogonalize_left if side == 'left' else tn.orthogonalize_right
-    Z = f(Y, i, inplace=True) if inplace else f(Y, i)
+    iw = wrap_k(i, form['kform'])
+    Z = f(Y, iw, inplace=True) if inplace else f(Y, iw)
     j2 = i + 1 if side == 'left' else i - 1
     if inplace:
         if Z is not Y:
             return ('in-place variant does not return its argument', None, None)
         for m in range(len(Y)):
-            if m not in (i, j2) and not np.array_equal(Y[m], snap[m]):
+            if m not in (i, j2) and not same_bytes(Y[m], snap[m]):
                 return (f'in-place variant changed core {m} (only {i} and {j2} may change)', m, None)
     else:
-        if any(not np.array_equal(a, b) for a, b in zip(Y, snap)) or any(a.shape != b.shape for a, b in zip(Y, snap)):
+        if len(Y) != len(snap) or any(not same_bytes(a, b) for a, b in zip(Y, snap)):
             return ('copying variant modified its argument', None, None)
     w = well_formed(Z, snap)
     if w:
         return (w, None, None)
     for m in range(len(snap)):
-        if m not in (i, j2) and not np.array_equal(Z[m], snap[m]):
+        if m not in (i, j2) and not same_bytes(Z[m], snap[m]):
             return (f'core {m} changed (only {i} and {j2} may change)', m, None)
-    G = Z[i]
+    G = np.asarray(Z[i], dtype=float)
     r1, n, r2 = snap[i].shape
     if side == 'left':
         U = G.reshape(-1, G.shape[2])
@@ -718,26 +832,28 @@ def check_step(tn, Y, side, i, inplace):
         e = float(np.max(np.abs(V @ V.T - np.eye(G.shape[0]))))
         if G.shape[0] != min(r1, n * r2):
             return ('new rank is not min(r1, n*r2)', G.shape[0], min(r1, n * r2))
-    if e > 1e-10:
+    if e > tg:
         return (f'core {i} is not orthonormal after orthogonalize_{side}', e, 0.0)
     D0, D1 = dense(snap), dense(Z)
     sc = float(np.max(np.abs(D0))) if D0.size else 0.0
     e = float(np.max(np.abs(D1 - D0))) if D0.size else 0.0
-    if e > 1e-9 * sc + 1e-290:
-        return (f'orthogonalize_{side} changed the tensor', e, 1e-9 * sc)
+    if e > td * sc + 1e-290:
+        return (f'orthogonalize_{side} changed the tensor', e, td * sc)
     return None
 
 
-def check_reject(tn, Y, what, k):
+def check_reject(tn, Y, what, k, form=None):
+    form = norm_form(form)
+    kw = wrap_k(k, form['kform'])
     try:
         if what == 'orthogonalize':
-            tn.orthogonalize([G.copy() for G in Y], k)
+            tn.orthogonalize(apply_form(Y, form), kw)
         elif what == 'orthogonalize_stab':
-            tn.orthogonalize([G.copy() for G in Y], k, use_stab=True)
+            tn.orthogonalize(apply_form(Y, form), kw, use_stab=True)
         elif what == 'left':
-            tn.orthogonalize_left([G.copy() for G in Y], k)
+            tn.orthogonalize_left(apply_form(Y, form), kw)
         else:
-            tn.orthogonalize_right([G.copy() for G in Y], k)
+            tn.orthogonalize_right(apply_form(Y, form), kw)
     except ValueError as e:
         if isinstance(e, np.linalg.LinAlgError):
             return ('out-of-range mode number: LinAlgError instead of ValueError', repr(e)[:100], 'ValueError')
@@ -748,16 +864,16 @@ def check_reject(tn, Y, what, k):
 
 
 def run_oracle(tn, inp):
-    """inp = [kind, Y0 desc, scales, k, flag] (+ optional layout 'C' | 'F' | 'int')"""
+    """inp = [kind, Y0 desc, scales, k, flag] (+ optional argument form: see norm_form / apply_form / wrap_k)"""
     kind, D, scales, k, flag = inp[:5]
-    layout = inp[5] if len(inp) > 5 else 'C'
+    form = norm_form(inp[5] if len(inp) > 5 else None)
     Y0 = tt_of_desc(D)
     try:
         if kind == 'orthogonalize':
-            return check_orth(tn, Y0, scales, k, flag, layout)
+            return check_orth(tn, Y0, scales, k, flag, form)
         if kind in ('left', 'right'):
-            return check_step(tn, build(Y0, scales, layout), kind, k, flag)
-        return check_reject(tn, Y0, kind[len('reject-'):], k)
+            return check_step(tn, build(Y0, scales, form), kind, k, flag, form)
+        return check_reject(tn, Y0, kind[len('reject-'):], k, form)
     except Exception as e:  # noqa
         return (f'{kind} raised on a valid input: {e!r}'[:300], None, None)
 
@@ -849,38 +965,66 @@ def search(R, ctx, deep, hints):
         if not inp:
             continue
         if inp[0] == 'orthogonalize':
-            cand.append(['orthogonalize', inp[2], [0] * len(inp[2]), inp[3], inp[4]])
+            cand.append(['orthogonalize', inp[2], [0] * len(inp[2]), inp[3], inp[4], inp[5] if len(inp) > 5 else None])
         elif inp[0] in ('orthogonalize_left', 'orthogonalize_right'):
-            cand.append([inp[0][len('orthogonalize_'):], inp[2], [0] * len(inp[2]), inp[3], inp[4]])
+            cand.append([inp[0][len('orthogonalize_'):], inp[2], [0] * len(inp[2]), inp[3], inp[4],
+                         inp[5] if len(inp) > 5 else None])
         elif inp[0] == 'orthogonalize-bad':
-            cand.append(['reject-orthogonalize_stab' if inp[3] else 'reject-orthogonalize', inp[1], [0] * len(inp[1]), inp[2], None])
+            cand.append(['reject-orthogonalize_stab' if inp[3] else 'reject-orthogonalize', inp[1], [0] * len(inp[1]), inp[2],
+                         None, dict(kform=inp[4] if len(inp) > 4 else 'int')])
         elif inp[0] in ('left-bad', 'right-bad'):
-            cand.append(['reject-' + inp[0][:-4], inp[1], [0] * len(inp[1]), inp[2], None])
+            cand.append(['reject-' + inp[0][:-4], inp[1], [0] * len(inp[1]), inp[2], None,
+                         dict(kform=inp[3] if len(inp) > 3 else 'int')])
     n_tt = 150 if deep else 40
+    nf = 0
     for t in range(n_tt):
         fam = FAMILIES[t % len(FAMILIES)]
         Y, scales = gen_tt(rng, fam, big=deep)
         Y0 = [G * 2.0 ** -s for G, s in zip(Y, scales)]
         D = tt_desc(Y0)
         d = len(Y)
-        layout = 'int' if fam == 'int' and t % 2 else ('F' if t % 5 == 1 else 'C')
+        pl = plain_ok(scales)
+        # (a) the plain form (C-ordered float64 cores in a list, Python int pivot): every pivot, every step
+        base = dict(layouts='C', alias=(fam == 'alias'), kform='int', container='list')
         for k in list(range(d)) + ([None] if t % 3 == 0 else []):
-            cand.append(['orthogonalize', D, scales, k, True, layout])
-            if plain_ok(scales):
-                cand.append(['orthogonalize', D, scales, k, False, layout])
-        if plain_ok(scales):
-            for i in range(d - 1):
-                cand.append(['left', D, scales, i, bool(rng.getrandbits(1)), layout])
-            for i in range(1, d):
-                cand.append(['right', D, scales, i, bool(rng.getrandbits(1)), layout])
+            cand.append(['orthogonalize', D, scales, k, True, base])
+            if pl:
+                cand.append(['orthogonalize', D, scales, k, False, base])
+        # (b) a random argument form per call: pivot type, per-core layout / dtype, tuple, aliasing
+        for k in range(d):
+            for stab in ((True, False) if pl else (True,)):
+                cand.append(['orthogonalize', D, scales, k, stab, rand_form(rng, fam, scales)])
+        if pl:
+            for side, idxs in (('left', range(d - 1)), ('right', range(1, d))):
+                for i in idxs:
+                    for inplace in (True, False):
+                        cand.append([side, D, scales, i, inplace,
+                                     base if rng.random() < 0.3 else rand_form(rng, fam, scales, allow_tuple=not inplace)])
+        # (c) systematic sweep: every pivot type x every uniform layout (and, for the aliasing idiom, every layout with
+        #     ONE array object for the repeated core), on one pivot / one step of each side
+        if t % 3 == 1 or fam == 'alias':
+            lays = ['C', 'F', 'view'] + (['int'] if fam in ('int', 'alias') else []) + ([] if any(scales) or fam == 'alias' else ['f32'])
+            for lay in lays:
+                for kf in KFORMS:
+                    fm = dict(layouts=lay, alias=(fam == 'alias'), kform=kf, container='tuple' if nf % 7 == 3 else 'list')
+                    nf += 1
+                    cand.append(['orthogonalize', D, scales, rng.randrange(d), True, fm])
+                    if pl and d >= 2:
+                        fl = dict(fm, container='list')
+                        cand.append(['left', D, scales, rng.randrange(d - 1), True, fl])
+                        cand.append(['right', D, scales, rng.randrange(1, d), True, fl])
+                        cand.append(['right', D, scales, rng.randrange(1, d), False, fm])
+        # (d) rejection, every pivot type
         if t % 4 == 0:
-            for k in [-1, -d, d, d + 2]:
-                cand.append(['reject-orthogonalize', D, [0] * d, k, None])
-                cand.append(['reject-orthogonalize_stab', D, [0] * d, k, None])
-            for i in [-1, -d, d - 1, d]:
-                cand.append(['reject-left', D, [0] * d, i, None])
-            for i in [0, -1, d, d + 1]:
-                cand.append(['reject-right', D, [0] * d, i, None])
+            for kf in KFORMS:
+                fm = dict(kform=kf, layouts=rng.choice(['C', 'F', 'view']))
+                for k in [-1, -d, d, d + 2]:
+                    cand.append(['reject-orthogonalize', D, [0] * d, k, None, fm])
+                    cand.append(['reject-orthogonalize_stab', D, [0] * d, k, None, fm])
+                for i in [-1, -d, d - 1, d]:
+                    cand.append(['reject-left', D, [0] * d, i, None, fm])
+                for i in [0, -1, d, d + 1]:
+                    cand.append(['reject-right', D, [0] * d, i, None, fm])
     cand += known_cases()      # fixed regression cases of the known finding (the generators stay clear of that family)
     n_known = 0
     for inp in cand:
@@ -899,7 +1043,10 @@ def search(R, ctx, deep, hints):
             if len(fails) - n_known >= 5:
                 break
     R.search.append(dict(name='dense reference: same tensor, Gram matrices, ranks, norm on the pivot, p and magnitudes, '
-                              'frame / in-place behaviour of the single steps, rejection',
+                              'frame (all other cores bitwise, aliased ones included) / in-place behaviour of the single '
+                              'steps, rejection; argument forms: pivot as int / np.int64 / np.int32 / np.intp / 0-d array / '
+                              'None, cores C- / F-ordered / non-contiguous views / int64 / float32 (mixed per core), the same '
+                              'array object several times in the list, list / tuple',
                          evaluations=n_eval, failures=len(fails) - n_known, known_finding_cases=n_known, deep=deep))
     return fails
 
